@@ -129,6 +129,31 @@ var refTable = map[string]interface{}{
 		}
 		return strs(re.Split(argS(a[1]), n)), true
 	}),
+	// the Regexp object of text.re_compile: args[0] of the reference is the pattern the object was compiled from
+	"regexp.match": refFn(func(a []tengo.Object) (tengo.Object, bool) {
+		return mkBool(regexp.MustCompile(argS(a[0])).MatchString(argS(a[1]))).Obj, true
+	}),
+	"regexp.find": refFn(func(a []tengo.Object) (tengo.Object, bool) {
+		re, s := regexp.MustCompile(argS(a[0])), argS(a[1])
+		if len(a) < 3 {
+			m := re.FindStringSubmatchIndex(s)
+			if m == nil {
+				return tengo.UndefinedValue, true
+			}
+			return findResult(s, [][]int{m}), true
+		}
+		return findResult(s, re.FindAllStringSubmatchIndex(s, argI(a[2]))), true
+	}),
+	"regexp.replace": refFn(func(a []tengo.Object) (tengo.Object, bool) {
+		return &tengo.String{Value: regexp.MustCompile(argS(a[0])).ReplaceAllString(argS(a[1]), argS(a[2]))}, true
+	}),
+	"regexp.split": refFn(func(a []tengo.Object) (tengo.Object, bool) {
+		n := -1
+		if len(a) > 2 {
+			n = argI(a[2])
+		}
+		return strs(regexp.MustCompile(argS(a[0])).Split(argS(a[1]), n)), true
+	}),
 	"text.compare": strings.Compare, "text.contains": strings.Contains, "text.contains_any": strings.ContainsAny, "text.count": strings.Count,
 	"text.equal_fold": strings.EqualFold, "text.fields": strings.Fields, "text.has_prefix": strings.HasPrefix, "text.has_suffix": strings.HasSuffix,
 	"text.index": strings.Index, "text.index_any": strings.IndexAny, "text.last_index": strings.LastIndex, "text.last_index_any": strings.LastIndexAny,
@@ -484,8 +509,23 @@ func classifyCall(ret tengo.Object, err error) string {
 	return "error:" + firstWords(err.Error())
 }
 
+var rePatterns = []string{"[a-c]+", "(a)(b)?", "a|", "[0-9]+", "é", "^$", "l+", "(?i)h(.)", "\\s+", ","}
+var curPattern string
+
 func callModule(mods *tengo.ModuleMap, mod, fn string, args []tengo.Object) (ret tengo.Object, err error, pan interface{}) {
 	defer func() { pan = recover() }()
+	if mod == "regexp" {
+		obj, e := mods.GetBuiltinModule("text").Attrs["re_compile"].Call(&tengo.String{Value: curPattern})
+		if e != nil {
+			return nil, e, nil
+		}
+		m, e := obj.IndexGet(&tengo.String{Value: fn})
+		if e != nil || m == nil || !m.CanCall() {
+			return nil, fmt.Errorf("the Regexp object has no method %s", fn), nil
+		}
+		ret, err = m.Call(args...)
+		return
+	}
 	bm := mods.GetBuiltinModule(mod)
 	if bm == nil {
 		return nil, fmt.Errorf("no module %s", mod), nil
@@ -571,6 +611,7 @@ func init() {
 			}
 			one := func(c *sigCase, a []tengo.Object) {
 				name := c.Mod + "." + c.Fn
+				curPattern = rePatterns[rng.Intn(len(rePatterns))]
 				ret, err, pan := callModule(mods, c.Mod, c.Fn, a)
 				got := classifyCall(ret, err)
 				limit := err != nil && (errors.Is(err, tengo.ErrStringLimit) || errors.Is(err, tengo.ErrBytesLimit))
@@ -579,7 +620,11 @@ func init() {
 				if c.Expect == "value" || c.Expect == "" {
 					if ref, known := refTable[name]; known {
 						haveRef = true
-						want, inDomain = refCall(ref, a)
+						ra := a
+						if c.Mod == "regexp" {
+							ra = append([]tengo.Object{&tengo.String{Value: curPattern}}, a...)
+						}
+						want, inDomain = refCall(ref, ra)
 					} else if !clockDependent[name] {
 						stats["no_reference:"+name]++
 					}
